@@ -266,6 +266,62 @@ def check(run: Run) -> None:
     from .c07 import check_inherited_lookup
 
     check_inherited_lookup(run, m, "C08.R5")
+    _check_typevar_pairing(run, m)
+    from .c10 import check_dict_typing
+
+    run.rule("C08.R7", "dictionary literals are typed whenever their keys can be dataclass fields (shared with C07.R7 / C10.R3)")
+    check_dict_typing(run, TermCtx(m, max_depth=1, opaque={"lookup_type", "remap_by_types"}), m, tt, "C08.R7")
+
+
+def _check_typevar_pairing(run: Run, m) -> None:
+    """R6. A parameterised class hands its arguments to its generic base by *position*: the i-th type variable of the
+    base (`__parameters__`) stands for the i-th actual argument (`get_args(t)`). The substitution map of
+    util_types.get_inherited must be exactly that pairing - {p.__name__: a for p, a in zip(params, args)} or
+    dict(zip(names, args)) - or Matches[Jet, Track] (a subclass of Iterable[Tuple[K, V]]) unwraps to Tuple[Track, Track]."""
+    from ..lib import unit
+    from ..terms import subterms
+
+    run.rule("C08.R6", "get_inherited pairs the base's type variables with the actual type arguments positionally (zip(__parameters__, get_args(t)))")
+    gi = m.find_func("get_inherited", in_module="func_adl.util_types")
+    ctx = TermCtx(m, max_depth=1)
+    n_maps = 0
+    mentions = lambda t, name: contains(t, lambda s: s[0] == "attr" and s[2] == name)  # noqa: E731
+    is_args = lambda t: t[0] == "app" and t[1][0] == "global" and t[1][1].endswith("get_args")  # noqa: E731
+    for f_ in unit(m, gi):
+        fa = ctx.analysis(f_)
+        for n in own_nodes(f_):
+            if not (isinstance(n, (ast.DictComp, ast.Call)) and fa.cfg.has_node(n)):
+                continue
+            if isinstance(n, ast.Call) and not (isinstance(n.func, ast.Name) and n.func.id == "dict"):
+                continue
+            t = strip_sites(fa.term_of(n))
+            if not mentions(t, "__parameters__"):
+                continue
+            n_maps += 1
+            ok = False
+            why = "not a positional pairing"
+            if t[0] == "comp" and t[1] == "DictComp" and t[2][0] == "tuple" and len(t[2][1]) == 2:
+                key, val = t[2][1]
+                gens = t[3]
+                if len(gens) != 1:
+                    why = f"{len(gens)} nested loops: every type variable is combined with every argument, the last argument wins for all of them"
+                elif gens[0][1]:
+                    why = "pairs are filtered by a condition"
+                else:
+                    z = gens[0][0]
+                    if z[0] == "app" and z[1] == ("global", "builtins.zip") and len(z[2]) == 2 and mentions(z[2][0], "__parameters__") and is_args(z[2][1]):
+                        ok = key == ("attr", ("index", ("elem", z), 0), "__name__") and val == ("index", ("elem", z), 1)
+                        why = f"key {show(key)[:60]} / value {show(val)[:60]} are not the two components of one zip element"
+                    else:
+                        why = f"the loop runs over {show(z)[:100]}, not zip(<base>.__parameters__, get_args(t))"
+            elif t[0] == "app" and t[1] == ("global", "builtins.dict") and len(t[2]) == 1:
+                z = t[2][0]
+                if z[0] == "app" and z[1] == ("global", "builtins.zip") and len(z[2]) == 2 and is_args(z[2][1]):
+                    names = z[2][0]
+                    ok = names[0] == "comp" and len(names[3]) == 1 and not names[3][0][1] and mentions(names[3][0][0], "__parameters__") and names[2] == ("attr", ("elem", names[3][0][0]), "__name__")
+                    why = "names are not [p.__name__ for p in <base>.__parameters__]"
+            run.check(ok, "C08.R6", f_, stmt_of(n), "type variables and type arguments are paired by position", f"the substitution map for the generic base is {show(t)[:160]}: {why}", "{p.__name__: a for p, a in zip(base.__parameters__, get_args(t))}", show(t)[:300], key="type-variable map is not zip(parameters, arguments)")
+    run.floor("C08.R6", n_maps, 1, "type-variable substitution maps in get_inherited")
 
 
 def strip_visits_attr(t):
